@@ -284,14 +284,15 @@ def outcome (cfg : Cfg) (c : Case) : Option (List (List Pos)) :=
     | none => none
     | some vals => outcomeLoop cfg vals c.dims c.subs
 
-/-- Proposed fix C23-3 (finding C23-F4): subscripts missing at the end of the list stand for `:`. -/
+/-- Fix C23-3 (finding C23-F4, commit 8f5c8e6): subscripts missing at the end of the list stand for `:`. -/
 def padSubs : Dims → Subs → Subs
   | .d2 _ _, .f1 a => .ff a .all
   | .d2 _ _, .l1 mul off => .lf mul off .all
   | _, s => s
 
-/-- `outcome` on a tree that pads missing subscripts (`get_indexed_symbol` zipping the padded subscript list
-    with the shape); on the tree as it is `outcome` itself applies, which indexes the storage linearly. -/
+/-- Generation on the tree as it is now: `get_indexed_symbol` zips the padded subscript list with the shape
+    (commit 8f5c8e6).  Before that commit `outcome` itself applied, which indexes the storage linearly when a
+    2-D array gets a single subscript. -/
 def outcomePadded (cfg : Cfg) (c : Case) : Option (List (List Pos)) :=
   outcome cfg ⟨c.dims, padSubs c.dims c.subs, c.loop⟩
 
